@@ -1413,6 +1413,10 @@ class SyncObj(object):
                 for i, consumer in enumerate(self.__consumers):
                     consumer._deserialize(consumersData[i])
 
+            if not clearJournal:
+                # The journal may not have been trimmed yet after this dump was written
+                self.__deleteEntriesTo(data[2][1])
+
             if clearJournal or \
                     len(self.__raftLog) < 2 or \
                     self.__raftLog[0] != data[2] or \
